@@ -10,13 +10,15 @@ import vlib
 from vlib import VI, VB, VL
 import regen_c06
 import regen_c20
+import c06_v2
 
 PID = "C06"
 HERE = os.path.dirname(os.path.abspath(__file__))
 WORKDIR = os.path.join(vlib.WORK, PID, "run")       # scratch (removed at exit); proposed_fix_*.diff live one level up
 THEOREMS = ["layouts_match_source", "iae_roundtrip", "header_roundtrip", "offsets_disjoint", "offsets_aligned", "preset_offsets_disjoint",
             "entry_points_at_image", "entry_hash", "iv_is_plain_hash_and_decrypts", "signed_range", "srk_hash_of_exported_table",
-            "verify_flags_each_field", "tamper_signed_range_reported", "tamper_header_reported", "reexport_normalises_header", "families_wf"]
+            "verify_flags_each_field", "tamper_signed_range_reported", "tamper_header_reported", "reexport_normalises_header", "families_wf"] \
+    + c06_v2.THEOREMS_V2 + c06_v2.THEOREMS_PARSE
 TM_TAG = {"serial_downloader": 0, "nand_4k": 2, "nand_2k": 3, "standard": 4}
 HASH = {"sha256": (0, hashlib.sha256, 32), "sha384": (1, hashlib.sha384, 48), "sha512": (2, hashlib.sha512, 64)}
 HASH_BY_TAG = {v[0]: v for v in HASH.values()}
@@ -574,7 +576,7 @@ def gen_cases(tier, rng, fams, extract, keys):
     v2_fams = [i for i, f in enumerate(extract["families"]) if 2 in f["container_types"]]
     tms = ["standard", "nand_2k", "nand_4k", "serial_downloader"]
     S = {k: [] for k in ("valid configurations, automatic offsets", "explicit image offsets", "invalid configurations must be refused",
-                         "signed containers, single-bit corruption", "container version 2 (oracles only)")}
+                         "signed containers, single-bit corruption", "container version 2")}
     # A: valid, automatic offsets -- every (v1 family row class) x target memory at least once, all key types
     n_a = 220 if thorough else 26
     ks_cycle = [None] + KEYSETS
@@ -696,7 +698,7 @@ def gen_cases(tier, rng, fams, extract, keys):
         flips += [[0x2000 + rng.randrange(512), rng.randrange(8)] for _ in range(3)]
         case["flips"] = flips
         S["signed containers, single-bit corruption"].append(case)
-    # E: container version 2 -- implementation + oracles only (the Coq model covers the version 1 signature block); every key type,
+    # E: container version 2 (modelled in Model/Ahab2Model.v; oracles through the own binary reader as for version 1); every key type,
     # RSA included (the SRKRecordV2 exponent-length check is repaired), encrypted images, several containers
     v2_keys = ["ecc256", "rsa2048", None, "ecc384", "rsa4096", "ecc521", "rsa3072"]
     for n in range(21 if thorough else 7):
@@ -711,7 +713,7 @@ def gen_cases(tier, rng, fams, extract, keys):
             c["blob"] = {"bits": 256, "dek": bytes(rng.randrange(256) for _ in range(32)).hex(), "kid": 3}
             c["images"][0]["enc"] = True
             c["images"][0]["size_align"] = 0
-        S["container version 2 (oracles only)"].append(mk(fx, tms[n % 4], conts, f"v2-{ks or 'unsigned'}", "export", v2=True))
+        S["container version 2"].append(mk(fx, tms[n % 4], conts, f"v2-{ks or 'unsigned'}", "export", v2=True))
     # single-bit corruption of signed version 2 containers: header, image array, signature block header, SRK table array, SRK data
     for n in range(4 if thorough else 2):
         fx = v2_fams[n % len(v2_fams)]
@@ -788,8 +790,9 @@ def run(tier):
     except Exception as ex:  # noqa
         rep.obligation("translate:spsdk/utils/misc.py check_range -> Gen/GenMisc.v", False, repr(ex))
     # (P) proofs
-    model_ok, mlog = vlib.coq_make(["Model/AhabModel.vo"])
-    vlib.check_theorems(rep, PID, THEOREMS, ["Proofs/AhabProofs.vo"])
+    c06_v2.check_constants(rep)
+    model_ok, mlog = vlib.coq_make(["Model/AhabModel.vo", "Model/Ahab2Model.vo", "Model/AhabParseModel.vo"])
+    vlib.check_theorems(rep, PID, THEOREMS, ["Proofs/AhabProofs.vo", "Proofs/Ahab2Proofs.vo", "Proofs/AhabParseProofs.vo"])
     if tier == "thorough":
         vlib.coqchk(rep, PID, THEOREMS)
     vlib.audit(rep)
@@ -850,49 +853,84 @@ def run(tier):
                          "history": {k: {kk: vv for kk, vv in v.items() if kk not in ("export", "containers")}
                                      for k, v in r["history"].items()}})
     rep.coverage["history"] = {"objects": nhist, "outcomes": hist_outcomes}
-    # correspondence with the Coq model (container version 1)
-    ndis, nmodel = 0, 0
+    # correspondence with the Coq models: export of version 1 (AhabModel) and version 2 (Ahab2Model) containers, the version-2 record
+    # parsers on exported and corrupted records, and AHABContainer.parse of every exported version-1 container (AhabParseModel)
+    ndis = {"v1": 0, "v2": 0, "codec": 0, "parse": 0}
+    ncnt = {"v1": 0, "v2": 0, "codec": 0, "parse": 0}
+    codec_out = {}
     if model_ok:
         exprs, idx = [], []
         for i, (c, r) in enumerate(zip(flat, results)):
-            if c["v2"]:
-                continue
             fi = extract["families"][c["fam"]]
             args = model_args(c, r, keys, fi)
-            exprs.append(model_expr(1, args))
-            idx.append(i)
+            exprs.append(c06_v2.model_expr(args) if c["v2"] else model_expr(1, args))
+            idx.append(("v2" if c["v2"] else "v1", i))
+        cod = c06_v2.codec_cases(flat, results, read_container, consts, rng, per_case=6 if tier == "thorough" else 3)
+        pcs = c06_v2.parse_cases(flat, results, consts)
+        if tier != "thorough":
+            pcs = pcs[:40]
+        exprs += c06_v2.codec_exprs(cod) + c06_v2.parse_exprs(pcs)
+        idx += [("codec", j) for j in range(len(cod))] + [("parse", j) for j in range(len(pcs))]
         try:
-            vals = vlib.run_model_cases("c06", "Value AhabModel", exprs, shard=max(1, (len(exprs) + 15) // 16), timeout=2400)
-            for i, mv in zip(idx, vals):
-                c, r = flat[i], results[i]
-                nmodel += 1
-                me, mr = mv[1][0], mv[1][1]
-                ok = same_export(r, me)
-                what = f"export: impl {r['status']}/{r.get('stage')} model {'bytes' if me[0] == 'l' else me}"
-                fn = 1
-                if ok and r.get("container_verify") is not None:
-                    want = range_errors_of(r)
-                    got = [sorted(x[1] for x in cv[1]) for cv in mr[1]]
-                    if not (len(want) == len(got) and all(w is None or w == g for w, g in zip(want, got))):
-                        ok, fn = False, 3
-                        what = f"failing range checks of AHABContainer.verify(): impl {want} model {got}"
-                mv = me
-                if not ok:
-                    ndis += 1
-                    if ndis <= 5:
-                        vlib.log(f"  disagreement ({c['why']}, case {i}): {what}")
-                        if fn == 1 and mv[0] == "l" and r["status"] == "ok":
-                            a, b = unrle(mv), bytes.fromhex(r["export"])
-                            d = next((k for k in range(min(len(a), len(b))) if a[k] != b[k]), None)
-                            vlib.log(f"    lengths model {len(a)} impl {len(b)}, first difference at {d if d is None else hex(d)}")
-                    if f"correspondence:{c['why']}" not in rep.broken:
-                        rep.broken.append(f"correspondence:{c['why']}")
-            rep.obligation("correspondence:model export / range checks = implementation on all version-1 cases", ndis == 0,
-                           f"{ndis} disagreements" if ndis else "")
+            impl_cod = c06_v2.run_codecs(cod) if cod else []
+            vals = vlib.run_model_cases("c06", c06_v2.IMPORTS_ALL, exprs, shard=max(1, (len(exprs) + 15) // 16), timeout=2400)
+
+            def disagree(kind, label, what):
+                ndis[kind] += 1
+                if sum(ndis.values()) <= 6:
+                    vlib.log(f"  disagreement [{kind}] ({label}): {what}")
+                if f"correspondence:{kind}:{label}" not in rep.broken:
+                    rep.broken.append(f"correspondence:{kind}:{label}")
+
+            for (kind, i), mv in zip(idx, vals):
+                ncnt[kind] += 1
+                if kind == "v1":
+                    c, r = flat[i], results[i]
+                    me, mr = mv[1][0], mv[1][1]
+                    ok = same_export(r, me)
+                    what = f"export: impl {r['status']}/{r.get('stage')} model {'bytes' if me[0] == 'l' else me}"
+                    if ok and r.get("container_verify") is not None:
+                        want = range_errors_of(r)
+                        got = [sorted(x[1] for x in cv[1]) for cv in mr[1]]
+                        if not (len(want) == len(got) and all(w is None or w == g for w, g in zip(want, got))):
+                            ok = False
+                            what = f"failing range checks of AHABContainer.verify(): impl {want} model {got}"
+                    elif not ok and me[0] == "l" and r["status"] == "ok":
+                        a, b = unrle(me), bytes.fromhex(r["export"])
+                        d = next((k for k in range(min(len(a), len(b))) if a[k] != b[k]), None)
+                        what += f"; lengths model {len(a)} impl {len(b)}, first difference at {d if d is None else hex(d)}"
+                    if not ok:
+                        disagree(kind, f"{c['why']}, case {i}", what)
+                elif kind == "v2":
+                    c, r = flat[i], results[i]
+                    ok, what, me = c06_v2.compare(same_export, r, mv)
+                    if not ok:
+                        disagree(kind, f"{c['why']}, case {i}", what)
+                elif kind == "codec":
+                    ck, blob = cod[i]
+                    codec_out[f"{ck}:{impl_cod[i][0]}"] = codec_out.get(f"{ck}:{impl_cod[i][0]}", 0) + 1
+                    if not c06_v2.codec_same(ck, impl_cod[i], mv):
+                        disagree(kind, ck, f"{ck}.parse({blob[:24].hex()}...): impl {impl_cod[i][:5]} model {mv if mv[0] == 'e' else 'fields'}")
+                else:
+                    ci, k, co, blob = pcs[i]
+                    ok, what = c06_v2.parse_same(results[ci]["parsed_containers"][k], mv, extract["srk"]["KEY_SIZES"])
+                    if not ok:
+                        disagree(kind, f"{flat[ci]['why']}, case {ci} container {k}", what)
+            rep.obligation("correspondence:model export / range checks = implementation on all version-1 cases", ndis["v1"] == 0,
+                           f"{ndis['v1']} disagreements" if ndis["v1"] else "")
+            rep.obligation("correspondence:version-2 model export / SRK hash / signed data / entries = implementation", ndis["v2"] == 0,
+                           f"{ndis['v2']} disagreements" if ndis["v2"] else "")
+            rep.obligation("correspondence:SRKData.parse / SRKRecordV2.parse = model on exported and corrupted records", ndis["codec"] == 0,
+                           f"{ndis['codec']} disagreements" if ndis["codec"] else "")
+            rep.obligation("correspondence:AHABContainer.parse of exported version-1 containers = model container_parse", ndis["parse"] == 0,
+                           f"{ndis['parse']} disagreements" if ndis["parse"] else "")
         except Exception as ex:  # noqa
             rep.obligation("correspondence:model evaluation", False, repr(ex))
     else:
         rep.obligation("correspondence:model builds", False, mlog[-2000:])
+    rep.add_stream("version-2 record parsers (SRK data, SRK record) on exported and corrupted bytes", ncnt["codec"],
+                   sum(v for k, v in codec_out.items() if k.endswith(":ok")), exhaustive=False, extra={"outcomes": codec_out})
+    rep.add_stream("AHABContainer.parse of exported version-1 containers vs model", ncnt["parse"], ncnt["parse"], exhaustive=False)
     for name, cs in streams.items():
         ids = [i for i, o in enumerate(owner) if o == name]
         nflip = sum(len(results[i].get("flips", [])) for i in ids)
@@ -907,14 +945,14 @@ def run(tier):
         rule="cases are drawn from VERIF_SEED over the AHAB families/revisions of the database x target memories x container/image "
              "counts x key types; evaluations = configurations + single-bit corruptions; distinct_nontrivial = distinct exported "
              "configurations + corruptions checked",
-        trusted_base=["Coq 8.16.1 kernel + vm_compute", "hand model Model/AhabModel.v tied by correspondence (container version 1)",
+        trusted_base=["Coq 8.16.1 kernel + vm_compute", "hand models Model/AhabModel.v (version 1), Ahab2Model.v (version 2), AhabParseModel.v (parse) tied by correspondence",
                       "tools/regen_c06.py (ast / database extraction into Gen/GenAhab.v)", "tools/translate/pyfun.py (check_range)",
                       "python `cryptography` (RSA-PSS / ECDSA / AES-CBC used directly by the oracles)",
                       "signatures are obligations: RSA/ECDSA are not modelled in Coq"],
         checker_cmd="coqc -R . V Props/C06/*.v (after make Proofs/AhabProofs.vo)",
         assumptions=["signature providers return signatures of the length announced by signature_length",
                      "images are non-empty; hash types sha256/sha384/sha512 (SM3 / SHA-3 need optional back ends)",
-                     "container version 2 (SRK table array, PQC second signature) and certificates are checked by the oracles only"])
+                     "container version 2 is modelled with one SRK table (the second, post-quantum table / signature needs the optional dilithium back end); certificates are outside the model"])
 
 
 if __name__ == "__main__":
